@@ -209,5 +209,23 @@ PROBE_F3 = ("upvalue.open.into.dropped.fiber",
             "var g = nil; { var fb = Fiber.new(|| { var loc = [1, 2]; g = || loc; Fiber.yield(0); }); fb.call(); } churn(); print(g());")
 
 
+# containers that SHRANK, listed before and after collections: a map that lost most of its entries (remove, clear) lists what is left in
+# one order whether or not a collection ran in between - keys, values, items, Display - for several sizes and key kinds; likewise the
+# fields of an instance that gained many and the elements of a vector that was popped down
+def _shrink_probes():
+    out = []
+    for kind, key in (("int", "i * 8 + 3"), ("str", '"k" + String.from(i)'), ("tuple", "(i, i % 3)")):
+        for put, took in ((40, 35), (100, 99), (17, 9), (600, 590)):
+            src = ("var m = {}; var i = 0; while i < %d { m.insert(%s, [i]); i = i + 1; } i = 0; while i < %d { m.remove(%s); i = i + 1; } "
+                   "print(m.keys()); churn(); print(m.keys()); print(m.values()); print(m.items()); print(m); m.insert(\"late\", 1); churn(); print(m); "
+                   "m.clear(); churn(); m.insert(1, 1); m.insert(2, 2); m.insert(\"three\", 3); churn(); print(m.keys());" % (put, key, took, key))
+            out.append(("shrunk.map.%s.%d-%d" % (kind, put, took), src))
+    out.append(("shrunk.vec", "var v = []; var i = 0; while i < 300 { v.push([i]); i = i + 1; } while v.len() > 5 { v.pop(); } churn(); print(v); v.push(1); churn(); print(v);"))
+    return out
+
+
+SHRINK_PROBES = _shrink_probes()
+
+
 def all_probes():
-    return [(n, CHURN + src, PROBE_MODULES) for n, src in PROBES + REBOUND + CHURN_PROBES]
+    return [(n, CHURN + src, PROBE_MODULES) for n, src in PROBES + REBOUND + CHURN_PROBES + SHRINK_PROBES]
